@@ -219,24 +219,31 @@ theorem safe0_congr {ε α : Type} {f g : State → Out ε α × State} {s : Sta
     (h : f s = g s) (hg : Safe0 W g s) : Safe0 W f s := by
   unfold Safe0 at hg ⊢; rw [h]; exact hg
 
-/-- a first step that may reassign anchors, followed by a `Safe` rest -/
+/-- a first step that may reassign anchors, followed by a rest that is safe from wherever it
+    starts -/
 theorem safe0_bind_M {α β : Type} {x : M α} {g : α → M β} {s : State} {Q : α → State → Prop}
-    {R : β → State → Prop} (hx : (x s).1 ≠ .panic ∧ W.I (x s).2 ∧ ∀ a, (x s).1 = .ok a → Q a (x s).2)
-    (hg : ∀ a s', W.I s' → Q a s' → Safe W (g a) s' R) : Safe0 W (x >>= g) s := by
+    (hx : (x s).1 ≠ .panic ∧ W.I (x s).2 ∧ ∀ a, (x s).1 = .ok a → Q a (x s).2)
+    (hg : ∀ a s', W.I s' → Q a s' → Safe0 W (g a) s') : Safe0 W (x >>= g) s := by
   obtain ⟨h1, h2, h4⟩ := hx
   unfold Safe0
   rw [M.bind_apply]
   generalize x s = r at h1 h2 h4
   obtain ⟨o, s'⟩ := r
   cases o with
-  | ok a => exact (hg a s' h2 (h4 a rfl)).safe0
+  | ok a => exact hg a s' h2 (h4 a rfl)
   | err e => exact ⟨by simp, h2⟩
   | panic => exact absurd rfl h1
+
+theorem safe_bind0_M {α β : Type} {x : M α} {g : α → M β} {s : State} {Q : α → State → Prop}
+    (hx : Safe W x s Q) (hg : ∀ a s', W.I s' → Mono W.Den s s' → Q a s' → Safe0 W (g a) s') :
+    Safe0 W (x >>= g) s :=
+  safe0_bind_M W (Q := fun a s' => Mono W.Den s s' ∧ Q a s') ⟨hx.1, hx.2.1, fun a ha => ⟨hx.2.2.1, hx.2.2.2 a ha⟩⟩
+    (fun a s' hi' hq => hg a s' hi' hq.1 hq.2)
 
 /-- what the scan phase needs from the QUERY handler (proved in QV.Proofs.ServerQuery) -/
 def QuerySafe (cfg : Cfg) (tr : Transport) : Prop :=
   ∀ (qn : WName) (qt qc : Nat) (s : State), W.I s → qn.WF → HintOK W.Den s .qname qn →
-    Safe W (handleQuery cfg (some (qn, qt, qc)) tr) s (fun _ _ => True)
+    Safe0 W (handleQuery cfg (some (qn, qt, qc)) tr) s
 
 theorem readQuestion_ok (r : Reader) (q : Question) (r1 : Reader) (h : readQuestion r = (.ok q, r1)) :
     ∃ p, parseCompressed r.octets r.cursor = .ok p ∧ q.qname = p.wire ∧
@@ -311,42 +318,41 @@ theorem handleWithContext_safe (cfg : Cfg) (tr : Transport) (now : Nat) (hnow : 
                 if opc = 0 then handleQuery cfg question tr else setRcode (RC "NOTIMP")
                 pure true : M Bool) s := by
     intro question r1 addQ hr1 ho1 haddQ
-    refine safe0_bind_M W (R := fun _ _ => True)
+    refine safe0_bind_M W
       (Q := fun ok s' => ok = true → ∀ qn qt qc, question = some (qn, qt, qc) →
         qn.WF ∧ HintOK W.Den s' .qname qn) (haddQ s hI hsect hqd) (fun okQ s1 hi1 hQ1 => ?_)
     cases okQ with
-    | false => exact safe_pure_M W true s1 hi1 trivial
+    | false => exact (safe_pure_M W true s1 hi1 (Q := fun _ _ => True) trivial).safe0
     | true =>
       simp only [Bool.not_true, Bool.false_eq_true, if_false]
       have hr2 : RInv (Reader.setMark r1) := hr1
       cases hsc : scanAnNs (be16 r0.octets 6 + be16 r0.octets 8) (Reader.setMark r1) with
-      | none => exact fin _ s1 hi1
+      | none => exact (fin _ s1 hi1).safe0
       | some r3 =>
         obtain ⟨hr3, ho3⟩ := scanAnNs_rinv _ _ _ hr2 hsc
         have c10 : Gen.ARCOUNT_START = 10 := by decide
         have hoct : be16 r3.octets Gen.ARCOUNT_START = be16 r0.octets 10 := by
           rw [ho3, c10]; show be16 r1.octets 10 = _; rw [ho1]
-        refine safe_bind_M W (scanAr_safe W cfg tr now hnow _ _ 0 { r := r3 } s1 hr3 hoct (by omega) hi1)
+        refine safe_bind0_M W (scanAr_safe W cfg tr now hnow _ _ 0 { r := r3 } s1 hr3 hoct (by omega) hi1)
           (fun st s2 hi2 hm2 _ => ?_)
         cases st with
-        | none => exact safe_pure_M W true s2 hi2 trivial
+        | none => exact (safe_pure_M W true s2 hi2 (Q := fun _ _ => True) trivial).safe0
         | some st' =>
           simp only
           split
-          · exact fin _ s2 hi2
-          · have done : ∀ (m : M Unit), Safe W m s2 (fun _ _ => True) →
-                Safe W (do m; pure true : M Bool) s2 (fun _ _ => True) :=
-              fun m hm => safe_bind_M W hm
-                (fun _ s3 hi3 _ _ => safe_pure_M W true s3 hi3 (Q := fun _ _ => True) trivial)
+          · exact (fin _ s2 hi2).safe0
+          · have done : ∀ (m : M Unit), Safe0 W m s2 → Safe0 W (do m; pure true : M Bool) s2 :=
+              fun m hm => safe0_bind_M W (Q := fun _ _ => True) ⟨hm.1, hm.2, fun _ _ => trivial⟩
+                (fun _ s3 hi3 _ => (safe_pure_M W true s3 hi3 (Q := fun _ _ => True) trivial).safe0)
             split
             · refine done _ ?_
               cases question with
-              | none => exact safe_setRcode W _ s2 hi2
+              | none => exact (safe_setRcode W _ s2 hi2).safe0
               | some q =>
                 obtain ⟨qn, qt, qc⟩ := q
                 obtain ⟨hwf, hh⟩ := hQ1 rfl qn qt qc rfl
                 exact hq qn qt qc s2 hi2 hwf (hintOK_qname_mono W hh hm2)
-            · exact done _ (safe_setRcode W _ s2 hi2)
+            · exact done _ (safe_setRcode W _ s2 hi2).safe0
   -- the question
   by_cases hqd0 : be16 r0.octets 4 = 0
   · have := main none r0 (pure true) hr rfl
